@@ -228,8 +228,8 @@ static const OrcX86Opcode orc_x86_opcodes[] = {
   { "xor", ORC_X86_INSN_TYPE_IMM32_REGM, 0, ORC_VEX_SIMD_PREFIX_NONE, 0x81, 6 },
   { "xor", ORC_X86_INSN_TYPE_REGM_REG, 0, ORC_VEX_SIMD_PREFIX_NONE, 0x33 },
   { "xor", ORC_X86_INSN_TYPE_REG_REGM, 0, ORC_VEX_SIMD_PREFIX_NONE, 0x31 },
-  { "cmpb", ORC_X86_INSN_TYPE_IMM8_REGM, 0, ORC_VEX_SIMD_PREFIX_NONE, 0x83, 7 },
-  { "cmpd", ORC_X86_INSN_TYPE_IMM32_REGM, 0, ORC_VEX_SIMD_PREFIX_NONE, 0x81, 7 },
+  { "cmp", ORC_X86_INSN_TYPE_IMM8_REGM, 0, ORC_VEX_SIMD_PREFIX_NONE, 0x83, 7 },
+  { "cmp", ORC_X86_INSN_TYPE_IMM32_REGM, 0, ORC_VEX_SIMD_PREFIX_NONE, 0x81, 7 },
   { "cmp", ORC_X86_INSN_TYPE_REGM_REG, 0, ORC_VEX_SIMD_PREFIX_NONE, 0x3b },
   { "cmp", ORC_X86_INSN_TYPE_REG_REGM, 0, ORC_VEX_SIMD_PREFIX_NONE, 0x39 },
   { "jo", ORC_X86_INSN_TYPE_BRANCH, 0, ORC_VEX_SIMD_PREFIX_NONE, 0x70 },
@@ -723,7 +723,10 @@ orc_x86_insn_output_asm (OrcCompiler *p, OrcX86Insn *xinsn)
     case ORC_X86_INSN_TYPE_REG_REGM:
     case ORC_X86_INSN_TYPE_IMM8_MMX_REG_REV:
       if (xinsn->type == ORC_X86_RM_REG) {
-        if (xinsn->opcode->type == ORC_X86_INSN_TYPE_REG_REGM) {
+        if (xinsn->opcode->type == ORC_X86_INSN_TYPE_REG_REGM ||
+            xinsn->opcode->type == ORC_X86_INSN_TYPE_IMM8_REGM ||
+            xinsn->opcode->type == ORC_X86_INSN_TYPE_IMM32_REGM ||
+            xinsn->opcode->type == ORC_X86_INSN_TYPE_REGM) {
           sprintf(dst_op, "%%%s", get_gp_regname (p, xinsn->dest, xinsn->size));
         } else {
           sprintf(dst_op, "%%%s", orc_x86_get_regname (xinsn->dest));
@@ -782,7 +785,18 @@ orc_x86_insn_output_asm (OrcCompiler *p, OrcX86Insn *xinsn)
     ORC_ASM_CODE(p,"  v%s %s%s%s%s%s\n", xinsn->opcode->name,
         imm_str, src_op, src_2nd_op, src_3rd_op, dst_op);
   } else {
-    ORC_ASM_CODE(p,"  %s %s%s%s\n", xinsn->opcode->name,
+    const char *suffix = "";
+    const size_t len = strlen (xinsn->opcode->name);
+
+    /* An immediate-to-memory instruction has no register operand that would
+     * tell the assembler the operand size */
+    if (xinsn->type != ORC_X86_RM_REG && len > 0 &&
+        xinsn->opcode->name[len - 1] != 'l' &&
+        (xinsn->opcode->type == ORC_X86_INSN_TYPE_IMM8_REGM ||
+         xinsn->opcode->type == ORC_X86_INSN_TYPE_IMM32_REGM)) {
+      suffix = (xinsn->size >= 8 && p->is_64bit) ? "q" : "l";
+    }
+    ORC_ASM_CODE(p,"  %s%s %s%s%s\n", xinsn->opcode->name, suffix,
         imm_str, src_op, dst_op);
   }
 }
